@@ -697,6 +697,24 @@ class Registry:
         args = [_effectively_concrete(a) for a in args]
         if not ops.has_sym(args):
             return uf.fn(*args)
+        if getattr(uf, "blockwise", None) is not None:
+            bs, ci, pi = uf.blockwise
+            if isinstance(args[pi], (bytes, bytearray, SBytes, SByteArray)):
+                d = as_sbytes(args[pi])
+                n = d.conc_len()
+                if n is not None and n > bs and n % bs == 0 and n // bs <= 16:
+                    out: Any = None
+                    c0 = ops.int_from_bytes(p, args[ci], "big")
+                    for j in range(n // bs):
+                        a2 = list(args)
+                        a2[pi] = ops.bytes_slice(p, d, j * bs, (j + 1) * bs)
+                        if j:
+                            cj = ops.binop(p, ast.Mod, ops.binop(p, ast.Add, c0, j), 1 << (8 * bs))
+                            a2[ci] = ops.int_to_bytes(p, cj, bs, "big")
+                        r = self.apply_uf(it, uf, a2, {})
+                        out = r if out is None else ops.bytes_concat(out, r)
+                    p.assumption_ids.add(f"law:{uf.name}-is-blockwise-counter-mode")
+                    return out
         apps = p.uf_apps.setdefault(uf.name, [])
         # inverse law: G(shared.., F(shared.., x)) == x
         if uf.inverse_of is not None:
